@@ -126,6 +126,24 @@ func init() {
 		"strings.ToUpper": func(m *Machine, fr *frame, fn *ssa.Function, a []Value) Value { return strings.ToUpper(m.concStr(a[0])) },
 		"strings.ToLower": func(m *Machine, fr *frame, fn *ssa.Function, a []Value) Value { return strings.ToLower(m.concStr(a[0])) },
 		"regexp.MatchString": hRegexpMatch,
+		"strings.Join": func(m *Machine, fr *frame, fn *ssa.Function, a []Value) Value {
+			sl := a[0].(Slice)
+			parts := make([]string, sl.Len)
+			for i := range parts {
+				parts[i] = m.concStr(sl.Arr.Elems[sl.Off+i])
+			}
+			return strings.Join(parts, m.concStr(a[1]))
+		},
+		"strings.HasPrefix": func(m *Machine, fr *frame, fn *ssa.Function, a []Value) Value {
+			return m.C.BoolC(strings.HasPrefix(m.concStr(a[0]), m.concStr(a[1])))
+		},
+		"strings.HasSuffix": func(m *Machine, fr *frame, fn *ssa.Function, a []Value) Value {
+			return m.C.BoolC(strings.HasSuffix(m.concStr(a[0]), m.concStr(a[1])))
+		},
+		"strings.Index": func(m *Machine, fr *frame, fn *ssa.Function, a []Value) Value {
+			return m.C.BVC(uint64(int64(strings.Index(m.concStr(a[0]), m.concStr(a[1])))), 64)
+		},
+		"strings.TrimSpace": func(m *Machine, fr *frame, fn *ssa.Function, a []Value) Value { return strings.TrimSpace(m.concStr(a[0])) },
 		// ---- sort ----
 		"sort.SliceStable": hSortSliceStable,
 		"sort.Slice":       hSortSliceAny,
